@@ -25,7 +25,7 @@ ALG_OPS = ["Borda", "BordaBucket", "Copeland", "KwikSort", "PickAPerm", "BioCons
            "ParCons(BioConsert;0)", "ParCons(KwikSort;2)", "ParCons(PickAPerm;0)", "Pulp", "Exact"]
 OTHER_OPS = ["kemeny_score", "description", "str", "parcons_partition", "parfront_partition", "unified_rankings",
              "unified_dataset", "sub_problem", "get_positions", "get_bucket_ids", "scheme_mul", "equivalence", "dataset_eq",
-             "nickname", "score_candidate", "iterate"]
+             "nickname", "score_candidate", "iterate", "topk", "topk"]
 
 
 def _plan(tier, seed):
@@ -137,6 +137,19 @@ def run_op(op, d, s, rng_seed, other, shared_algs=None):
         cons = ck.BordaCount().compute_consensus_rankings(d.unified_dataset(), s, True)
         txt = cons.description() + d.description() + s.description()
         return len(txt), None
+    if op == "topk":
+        # reading the top of a consensus and evaluating it against a gold standard (PickAPerm hands out the dataset's own
+        # Ranking objects on complete data: whatever works on the returned sets works on the dataset's buckets)
+        alg = ck.PickAPerm() if d.is_complete or r.random() < 0.5 else ck.CopelandMethod()
+        cons = alg.compute_consensus_rankings(d, s, True)
+        out = []
+        for _ in range(3):
+            k = r.randint(1, max(1, d.nb_elements))
+            gold = [e for e in uni if r.random() < 0.4]
+            top = cons.topk_ranking(k)
+            out.append([k, sorted(str(e) for e in top), cons.evaluate_topk_ranking(gold, k),
+                        cons.evaluate_topk_ranking((e for e in gold), k)])
+        return out, cons
     if op == "str":
         cons = ck.CopelandMethod().compute_consensus_rankings(d, s, False)
         seen = [str(cons) == repr(cons), len(cons), cons.nb_consensus, [str(r) for r in cons], str(cons[0]),
